@@ -729,6 +729,14 @@ int __wrap_close(int fd) {
   }
   of->is_open = false;
   vsim::ev("close", fd - FD_BASE);
+  if (w.faults.eintr_close && vsim::chance(1, w.faults.eintr_close, "close.eintr")) {
+    // Linux releases the descriptor even when close() is interrupted; retrying would close whatever
+    // has been opened under that number since
+    VS_FAULT("EINTR@close");
+    w.calls.errors++;
+    errno = EINTR;
+    return -1;
+  }
   return 0;
 }
 
